@@ -1,7 +1,7 @@
 (* C20 oracle: runs the extracted arena model (Parent/Arena.v: answers_flat) on a labelled tree.
    T\t<fx>\t<tokens>   fx = 0 (code as it is) | 1 (with the Type2::Unwrap repair);
                        tokens = preorder list of <kind>.<label>.<number of children>, space separated
-   -> the model's answers, one item per node in preorder: <label returned by the parent query or ->@<position of the
+   -> the model's answers, one item per node in preorder: <label returned by the parent query or ->@<preorder index of the
       first registration of the node's label or ->.  The token list is parsed into a tree INSIDE the model
       (Arena.parse_tree), so that the vm_compute slice of the check exercises exactly the same function. *)
 open Parent_model
